@@ -337,7 +337,7 @@ SPEC = {
              'completely.'),
     'assumptions': ['refsem is the intended denotation (validated each run against a naive evaluator)',
                     'pysat / mockturtle_wrapper are replaced by test doubles only to make the modules importable'],
-    'subs': [Sub('eval', cases, check_eval, {'quick': 2400, 'thorough': 40000})],
+    'subs': [Sub('eval', cases, check_eval, {'quick': 2400, 'thorough': 200000})],
     'exhaustive': {'oracle_selfcheck': oracle_selfcheck, 'gate_tables': gate_tables},
     'required_classes': {'eval': ['nary>=3', 'dup_operand', 'constant', 'LR_gate', 'output_is_input',
                                   'dup_output', 'dead_gate', 'unused_input', 'zero_inputs',
